@@ -175,7 +175,10 @@ class Gen:
         kind, name, ps = self.pick(cands)
         if not self.charge(ctx, name):
             return None
-        args = " ".join(self.expr(sc, (p if isinstance(p, str) else p[1]), d - 1, ctx) for p in ps)
+        # closure literals in argument position are single-expression lambdas (a multi-line closure
+        # literal inside an argument list trips the real checker's overload resolution)
+        actx = dict(ctx, simple_lam=True)
+        args = " ".join(self.expr(sc, (p if isinstance(p, str) else p[1]), d - 1, actx) for p in ps)
         if kind == "def":
             self.features.add("call-def")
             return f"(calld {name} {args})".replace(" )", ")")
@@ -245,7 +248,8 @@ class Gen:
             inner.vars[n] = (p, True)
             params.append(f"({n} {p})")
         c2 = dict(ctx, loops=[], in_fn=True, ret=ret, in_finally=False, acc=[0], mult=1, in_w=False)
-        if self.r.random() < 0.5 or d <= 0:
+        if self.r.random() < 0.5 or d <= 0 or ctx.get("simple_lam"):
+            c2["simple_lam"] = False
             body = f"(expr {self.expr(inner, ret, max(d - 1, 0), c2)})"
         else:
             body = self.block(inner, max(d - 1, 1), c2, final_ty=ret)
@@ -282,7 +286,7 @@ class Gen:
                     cand = self.pick(fs_rest)
                     if self.charge(ctx, cand[0]):
                         n, t = cand
-                args = " ".join(self.expr(sc, p_, 1, ctx) for p_ in self.fn_params(t))
+                args = " ".join(self.expr(sc, p_, 1, dict(ctx, simple_lam=True)) for p_ in self.fn_params(t))
                 self.features.add("call-clo")
                 call = f"(callc (var {n}) {args})".replace(" )", ")")
                 return f"(print {call})" if r.random() < 0.7 else f"(expr {call})"
@@ -532,13 +536,13 @@ class Gen:
         # make sure results of the methods are observed
         for name, ps, ret, rank in sigs:
             if ret in (INT, BOOL):
-                args = " ".join(self.expr(sc, t, 1, ctx) for _, t in ps)
+                args = " ".join(self.expr(sc, t, 1, dict(ctx, simple_lam=True)) for _, t in ps)
                 if ret == BOOL and self.k.print_types and "bool" not in self.k.print_types:
                     main += f" (if (calld {name} {args}) ((print (int 1))) ((print (int 0))))".replace(" )", ")")
                 else:
                     main += f" (print (calld {name} {args}))".replace(" )", ")")
             elif ret.startswith("(fn"):
-                args = " ".join(self.expr(sc, t, 1, ctx) for _, t in ps)
+                args = " ".join(self.expr(sc, t, 1, dict(ctx, simple_lam=True)) for _, t in ps)
                 cps = self.fn_params(ret)
                 cargs = " ".join(self.expr(sc, t, 1, ctx) for t in cps)
                 h = self.fresh("h")
